@@ -20,7 +20,7 @@ RULE = ("exhaustive: every unary/binary operator x operand shapes {u0..u3,s1..s3
 MODELLED = ("value nodes of hdl/_ast.py (Const, Signal, Operator, Slice, Part, Concat, SwitchValue) and their shape() in "
             "coq/Model/Ast.v; _RHSValueCompiler in coq/Model/PyRTL.v (raw-integer semantics of the generated Python); "
             "_pyeval.eval_value in coq/Model/PyEval.v; the rewriting definitions of abs/shift_*/rotate_*/replicate/matches/__getitem__/"
-            "Mux/ArrayProxy.as_value in coq/Model/Derived.v (rotate, replicate, matches, stepped slices: tied by the run only, "
+            "Mux/ArrayProxy.as_value in coq/Model/Derived.v (replicate, matches, stepped slices: tied by the run only, "
             "no theorem). exec() of generated code, ValueVisitor dispatch, the delta-cycle "
             "engine and Signal commit are exercised by the differential run only")
 ASSUMPTIONS = ["signals hold normalised values (env_ok), as _PySignalState guarantees"]
